@@ -9,6 +9,8 @@ GET = "db::DB::get"
 NEW_ITER = "db::DB::new_iterator"
 GET_SNAPSHOT = "db::DB::get_snapshot"
 APPLY = "db::DB::apply_changes"
+NOTIFY_WRITER = "writers::Writer::notify_writer"
+RECOVER_LOGS_FN = "db::DB::recover_unrecorded_logs"
 MAKE_ROOM = "db::DB::make_room_for_write"
 MEMTABLE = "db::DB::memtable"
 LOAD_FULL = "arc_swap::ArcSwapAny::load_full"
@@ -3958,10 +3960,21 @@ def pair13_block_indexed(P, R, L, rule="PAIR-13"):
             # Some-edges of the unwrapped flush result
             some = []
             for l in range(len(b.locals)):
-                if "Option<tables::block_handle::BlockHandle>" in b.local_ty(l) and not b.local_ty(l).startswith("std::result"):
+                ty = b.local_ty(l)
+                if "Option<tables::block_handle::BlockHandle>" in ty and not ty.startswith("std::result") and not ty.startswith("std::ops::ControlFlow"):
                     if any(o.kind == "call" and o.site is not None and o.site.bb == f_.bb for o in origins(b, {"k": "copy", "pl": {"l": l, "p": []}})):
                         for t in option_tests(b, l):
                             some += [(t.bb, x) for x in t.ok]
+            # the handle may be matched as a component of a tuple: `if let (Some(h), ..) = (maybe_handle, ..)`
+            from ..rules import _switches_on_local
+            for bb in range(b.n):
+                for st in b.blocks[bb]["stmts"]:
+                    if st["k"] == "assign" and st["rv"]["k"] == "discr" and not st["pl"]["p"]:
+                        pl = st["rv"]["pl"]
+                        if any(isinstance(e, dict) and "f" in e for e in pl["p"]) and b.local_ty(pl["l"]).startswith("(") and \
+                                any(o.kind == "call" and o.site is not None and o.site.bb == f_.bb for o in origins(b, pl)):
+                            for sb in _switches_on_local(b, st["pl"]["l"]):
+                                some.append((sb, switch_target(b.term(sb), 1)))
             ok = bool(idx) and bool(some)
             for (sb, tg) in some:
                 for r in _ok_blocks(b):
@@ -4264,6 +4277,8 @@ def bundle_recovery(P, R, L):
     R.once(c02.grd1_replay, P, R, L)
     agr2_codec_pairs(P, R, L, groups=("batch", "log", "manifest"))
     R.once(grd26_reused_flag_truthful, P, R, L)
+    R.once(grd28_last_wal_flag, P, R, L)
+    R.once(pair17_recovery_flush_forces_manifest, P, R, L)
     R.once(grd24_reuse_adopts_number_with_file, P, R, L)
 
 
@@ -5238,3 +5253,105 @@ def ord20_empty_block_tested_before_finalize(P, R, L, rule="ORD-20"):
     ok = bool(fin) and bool(non_empty) and all(b.must_pass(f.bb, through_edges=non_empty) for f in fin)
     R.check(rule, fn + "|finalize-only-a-non-empty-block", ok, where(b),
             "BlockBuilder::finalize is reached only over the `is_empty() == false` edge", "finalize sites %d, non-empty edges %d" % (len(fin), len(non_empty)))
+
+
+def pair16_followers_always_completed(P, R, L, rule="PAIR-16"):
+    """A follower popped by the leader leaves its wait loop only when `is_operation_complete()` is true (it is no longer
+    at the head of the queue). The leader therefore marks every follower complete unconditionally — also when the
+    group's write failed: `set_operation_completed(true)` with a constant, never a value derived from the write result."""
+    b = P.body(APPLY)
+    if b is None:
+        return R.missing_anchor(rule, APPLY)
+    R.analysed(b)
+    sets = [c for c in b.calls() if not b.is_cleanup(c.bb) and c.name == "writers::Writer::set_operation_completed"]
+    bad = []
+    for c in sets:
+        os_ = origins(b, c.args[1])
+        if not (os_ and all(o.kind == "const" and str(o.name) in ("1", "true") for o in os_)):
+            bad.append("line %s: completed := %s" % (c.line, sorted({(o.kind, str(o.name)) for o in os_})[:3]))
+    notif = [c for c in b.calls() if not b.is_cleanup(c.bb) and c.name == NOTIFY_WRITER]
+    # every notification of a follower is preceded by marking that follower complete
+    unmarked = [n.line for n in notif if in_cycle(b, n.bb) and not b.must_pass(n.bb, through_nodes=[c.bb for c in sets])]
+    R.check(rule, APPLY + "|followers-marked-complete-whatever-the-result", bool(sets) and not bad and not unmarked, where(b),
+            "every follower is marked complete with the constant `true` before it is notified (a failed group must release its followers too)",
+            "; ".join(bad + ["notify at line %s without a preceding set_operation_completed" % l for l in unmarked]) or "%d sites" % len(sets))
+
+
+def grd28_last_wal_flag(P, R, L, rule="GRD-28"):
+    """DB::recover_wal_records may re-open the WAL it replayed for appending and adopt its memtable as the active one — but
+    only for the LAST replayed WAL (the memtable of an earlier one would be replaced by the next WAL's without ever being
+    flushed). The caller computes that flag as `index == count - 1`: an equality, nothing weaker."""
+    b = P.body(RECOVER_LOGS_FN)
+    if b is None:
+        return R.missing_anchor(rule, RECOVER_LOGS_FN)
+    R.analysed(b)
+    rw = [c for c in b.calls() if not b.is_cleanup(c.bb) and c.name == "db::DB::recover_wal_records"]
+    bad = []
+    for c in rw:
+        if len(c.args) < 4:
+            bad.append("unexpected arity")
+            continue
+        os_ = origins(b, c.args[3])
+        eqs = [o for o in os_ if o.kind == "binop" and str(o.name) == "Eq"]
+        oth = [o for o in os_ if not (o.kind == "binop" and str(o.name) == "Eq")]
+        if not eqs or oth:
+            bad.append("line %s: is_last_wal derives from %s" % (c.line, sorted({(o.kind, str(o.name)) for o in os_})[:4]))
+            continue
+        for o in eqs:
+            ops = o.extra[1]["rv"]["ops"]
+            sides = [origins(b, x) for x in ops]
+            has_last = any(any(y.kind == "binop" and str(y.name).startswith("Sub") for y in s_) for s_ in sides)
+            if not has_last:
+                bad.append("line %s: the equality does not compare with `count - 1`" % c.line)
+    R.check(rule, RECOVER_LOGS_FN + "|only-the-last-wal-is-flagged-last", bool(rw) and not bad, where(b),
+            "the is_last_wal argument of recover_wal_records is `index == count - 1` (Eq)", "; ".join(bad) or "%d replay sites" % len(rw))
+
+
+def pair17_recovery_flush_forces_manifest(P, R, L, rule="PAIR-17"):
+    """DB::recover_wal_records reports whether the version edit it filled has to be saved (a table was written during
+    replay). DB::open saves the edit only then — a flush that is not reported produces a table no version lists: the
+    garbage collection at the end of open deletes it and the replayed writes are gone with the WAL. Every path through a
+    convert_memtable_to_file site to an Ok return passes an assignment `flag = true` of the flag that is returned."""
+    fn = "db::DB::recover_wal_records"
+    b = P.body(fn)
+    if b is None:
+        return R.missing_anchor(rule, fn)
+    R.analysed(b)
+    conv = [c for c in sites_reaching(P, b, CONVERT) if not b.is_cleanup(c.bb)]
+    # the flag: first component of the tuple wrapped into the Ok return
+    flags = set()
+    okb = []
+    for bb in range(b.n):
+        if b.is_cleanup(bb):
+            continue
+        for st in b.blocks[bb]["stmts"]:
+            if st["k"] == "assign" and st["pl"]["l"] == 0 and not st["pl"]["p"] and st["rv"]["k"] == "aggregate" and st["rv"].get("variant") == "Ok":
+                okb.append(bb)
+                op = st["rv"]["ops"][0]
+                if op["k"] in ("copy", "move"):
+                    for d in b.defs().get(op["pl"]["l"], []):
+                        if d[0] == "stmt" and d[3]["rv"]["k"] == "aggregate" and d[3]["rv"]["ak"] == "tuple" and d[3]["rv"]["ops"]:
+                            f0 = d[3]["rv"]["ops"][0]
+                            seen = set()
+                            while f0["k"] in ("copy", "move") and f0["pl"]["l"] not in seen:
+                                seen.add(f0["pl"]["l"])
+                                flags.add(f0["pl"]["l"])
+                                ds = [x for x in b.defs().get(f0["pl"]["l"], []) if x[0] == "stmt" and x[3]["rv"]["k"] == "use"]
+                                if len(ds) == 1 and ds[0][3]["rv"]["ops"][0]["k"] in ("copy", "move"):
+                                    f0 = ds[0][3]["rv"]["ops"][0]
+                                else:
+                                    break
+    sets_true = [bb for bb in range(b.n) if not b.is_cleanup(bb) for st in b.blocks[bb]["stmts"]
+                 if st["k"] == "assign" and not st["pl"]["p"] and st["pl"]["l"] in flags and st["rv"]["k"] == "use"
+                 and st["rv"]["ops"][0]["k"] == "const" and str(st["rv"]["ops"][0].get("val")) == "1"]
+    bad = []
+    for c in conv:
+        if b.must_pass(c.bb, through_nodes=sets_true):
+            continue
+        for r in okb:
+            if c.target is not None and r in b.reachable(c.target) and not b.must_pass(r, through_nodes=sets_true, start=c.target):
+                bad.append("the flush at line %s can be followed by an Ok return without `save the edit` having been set" % c.line)
+                break
+    R.check(rule, fn + "|a-flush-during-replay-is-reported", bool(conv) and bool(flags) and bool(sets_true) and not bad, where(b),
+            "every path through convert_memtable_to_file to an Ok return passes `flag = true` for the flag returned as the first tuple component",
+            "; ".join(bad) or "flush sites %d, flag stores %d" % (len(conv), len(sets_true)))
